@@ -13,6 +13,8 @@ and is NOT decided.  Decided are structural conditions of termination and of the
  RF-mirror    __in_range_p: bounds are handed to the range predicate in (first, last) order for an ascending and (last, first)
               for a descending run; the four time-only tests are the mirror images documented for plain and wrapping runs
  RF2-skip     weekday w is skipped through bit 1 << w on both sides: the setter's case table and the tester's shift agree
+ RF11-clamp   the emitting loop tests the clamped iterate (dt_fixup), because month / year steps keep unclamped days on purpose
+              (that dt_fixup clamps date-times too is decided under C04)
  RF8-step     every loop that walks the sequence advances through date_add with the increment (or the alternative increment)
               -- no loop re-tests an unchanged value
 """
@@ -291,8 +293,34 @@ def check_step(P, R, tu):
     R.floor(rule, "sequence loops", n, 4)
 
 
+def check_clamped_test(P, R, tu):
+    """month / year steps leave unclamped iterates (2000-04-31) on purpose, so that the k-th element is FIRST + k increments in one
+    step; the range test of the emitting loop therefore has to look at the clamped value"""
+    rule = "RF11-clamp"
+    mn = tu.func("main")
+    hit = False
+    for lp in mn.walk():
+        if lp.get("k") != "ForStmt":
+            continue
+        cond = lp["c"][1]
+        if cond is None:
+            continue
+        for c in walk(cond):
+            if c.get("k") == "CallExpr" and c.get("callee") == "__in_range_p":
+                a0 = strip(call_args(c)[0])
+                hit = True
+                if a0 is not None and a0.get("k") == "CallExpr" and a0.get("callee") == "dt_fixup":
+                    R.ob(rule, "the emitting loop tests the clamped iterate: __in_range_p(dt_fixup(x), ..)", True)
+                else:
+                    R.finding(rule, mn, "range test of the emitting loop", "the emitting loop compares the unclamped iterate with the bounds: "
+                              "a month sequence from the 31st stops before a LAST that is the clamped end of a month", c)
+    if not hit:
+        raise AnalysisBroken("%s: range test of the emitting loop not recognised" % rule)
+
+
 def check(P, R, tier):
     tu = P.tu("dseq-dseq.o")
+    check_clamped_test(P, R, tu)
     check_naught(P, R, tu)
     check_dv(P, R, tu)
     check_carry(P, R, tu)
